@@ -45,7 +45,15 @@ def check(world, tier):
             a.ob(not bad, "closure-shares %s in %s" % (ts, short(clos)), "the worker closure captures %s: state shared with other threads" % ts,
                  sample={"closure": short(clos), "captures": ts})
     # ---------------------------------------------------------------- b
-    fi_ss = {f["name"]: i for i, f in enumerate(prog.adts[SERVERSOCKET]["variants"][0]["fields"])} if SERVERSOCKET in prog.adts else {}
+    # the channel-backed socket's parts by type (its field names are private)
+    fi_ss = {}
+    if SERVERSOCKET in prog.adts:
+        for i, f in enumerate(prog.adts[SERVERSOCKET]["variants"][0]["fields"]):
+            ts = prog.types[f["ty"]]["s"]
+            if ts == "std::net::UdpSocket":
+                fi_ss.setdefault("socket", i)
+            elif ts == "std::net::SocketAddr":
+                fi_ss.setdefault("remote", i)
     inserts = [e for e in L.events if base_name(e) == "std::collections::HashMap::insert"]
     b.need(len(set(e.node for e in inserts)), 2, "client registrations (one per handler)")
     ssnew = [e for e in L.events if e.inlined and base_name(e).endswith("socket::ServerSocket::new")]
@@ -114,6 +122,9 @@ def check(world, tier):
             if need_remote:
                 to = x.args[2] if len(x.args) > 2 else None
                 okr = isinstance(to, tuple) and to[0] == "r" and to[1] == sroot and tuple(to[2][:1]) == (fi_ss.get("remote"),)
+                if not okr:
+                    # passed by value (SocketAddr is Copy): the value read from self.remote
+                    okr = term_contains(to, lambda t: isinstance(t, tuple) and len(t) == 3 and t[0] == "init" and t[1] == sroot and tuple(t[2][:1]) == (fi_ss.get("remote"),))
                 b.ob(okr, "serversocket-sends-to-other-remote", "ServerSocket::send does not address its own remote", x.loc, sample={"send to": "self.remote"})
     # ---------------------------------------------------------------- c
     binds = [e for e in L.events if base_name(e) == "std::net::UdpSocket::bind"]
